@@ -3,6 +3,7 @@ import MosnVerif.Gen.ProxyReason
 import MosnVerif.Gen.Resource
 import MosnVerif.Gen.ProxyRetry
 import MosnVerif.Gen.ProxyError
+import MosnVerif.Gen.ProxyReset
 /-!
 # The shared downstream machine (DESIGN.md §5) — model of one downstream request of MOSN's proxy core
 
@@ -17,14 +18,18 @@ Granularity.  The request's worker goroutine advances by the label `work`: ONE i
 (the Go code performs it under a CAS or a one-shot flag): an upstream response (`upResp`), an upstream stream reset
 (`upReset`), the two timer callbacks (`perTryFire`, `globalFire`), a downstream stream reset (`downReset`), the
 downstream connection close (`connClose`), an asynchronous `TerminateStream` (`terminate`).  `poolFail` scripts the
-outcome of the next `ConnectionPool.NewStream`; `hostsGone` makes the next host selection fail.  So the model
+outcome of the next `ConnectionPool.NewStream`; `hostsGone` makes the next host selection fail.
+Partial (streamed) responses: `upRespS` hands over a response head whose body / trailers are still in flight — the
+client stream stays registered with its connection, so it can still be reset (`upReset`) or end (`upEnd`); the worker
+forwards the head and then waits for the end of the upstream body before it writes the rest (`bodyWait`).  So the model
 exhibits every interleaving of asynchronous events with the worker at phase granularity; interleavings *inside* a
 phase body are not exhibited (stated partial).
 
 Regenerated parts (`Gen.*`, rebuilt from the Go source on every check): the `Phase` enum and `phase++`, the loop
 budget of `OnReceive` and whether retry passes keep it, `processError` (translated statement by statement, generic in
 the state), `retryState.retry/shouldRetry/reset` (same), `doRetryCheck`'s decision table, `resource.CanCreate/
-Increase/Decrease`, `types.ConvertReasonToCode`, `streamResetReasonToResponseFlag`, the pool-failure→reason map, the
+Increase/Decrease`, the two conditions of `onUpstreamReset` (may a reset still be retried; reset the client or answer it:
+`Gen.ProxyReset`), `types.ConvertReasonToCode`, `streamResetReasonToResponseFlag`, the pool-failure→reason map, the
 `api` status codes and response flags.
 
 What is not modelled: stream filters other than the asynchronous terminate (C14 adds `Model/FilterChain.lean`),
@@ -142,6 +147,8 @@ inductive Label where
   | work
   | upResp (k : Nat) (code : Nat) (hasData hasTrailers : Bool)
   | upReset (k : Nat) (reason : Reason)
+  | upRespS (k : Nat) (code : Nat) (hasData hasTrailers : Bool)   -- response head of a streamed response (body in flight)
+  | upEnd (k : Nat)                                               -- the streamed body of client stream k ended
   | poolFail (kind : PoolFail)
   | hostsGone
   | perTryFire
@@ -289,10 +296,25 @@ def setupRetry (c : Cfg) (s : S) (eos : Bool) : S × Bool :=
   let s := if !eos then resetUpstream c s else s
   ({ s with perTry := false, urr := false }, true)
 
+/-- the fields of `downStream` the regenerated conditions of `onUpstreamReset` may read -/
+def resetFlags (c : Cfg) (s : S) : Gen.ProxyReset.Flags where
+  responseStarted := s.respStarted
+  processDone := s.procDone
+  hasRetryState := s.rs.isSome
+  requestSent := s.reqSent
+  recvDone := s.recvDone
+  responseReceived := s.urr
+  downstreamReset := s.downReset
+  upstreamReset := s.upReset
+  hasUpstreamRequest := s.up.isSome
+  oneway := c.oneway
+  directResponse := s.direct
+  hasResponseHeaders := s.resp.isSome
+
 /-- the part of `onUpstreamReset` after the retry decision: clean up timers, then reset or reply -/
 def onUpstreamResetFinish (c : Cfg) (s : S) (reason : Reason) : S :=
   let s := cleanUp c s
-  if s.respStarted then resetDownstream c s
+  if Gen.ProxyReset.resetNotReply (resetFlags c s) then resetDownstream c s
   else
     let s := orFlag s (reasonToFlag reason)
     let s := { s with upReset := false }
@@ -301,7 +323,7 @@ def onUpstreamResetFinish (c : Cfg) (s : S) (reason : Reason) : S :=
 /-- `downStream.onUpstreamReset(reason)` -/
 def onUpstreamReset (c : Cfg) (s : S) : S :=
   let reason := s.resetReason
-  if reason != .UpstreamGlobalTimeout && !s.respStarted && s.rs.isSome then
+  if Gen.ProxyReset.retryGate reason (resetFlags c s) then
     let (s, check) := rsRetry c s (some reason)
     if check == Gen.ProxyRetry.ShouldRetry then
       match setupRetry c s true with
@@ -498,9 +520,19 @@ def finishPhase (c : Cfg) (s : S) : S :=
   | (s, some p) => reenter s p
   | (s, none) => { s with phase := s.phase.next }
 
+/-- the current upstream request owns a client stream that is still live -/
+def bodyOpen (s : S) : Bool := match curStream s with | some k => streamLive s k | none => false
+
+/-- the worker has forwarded the head of a streamed response and waits for the end of the upstream body (real code: it
+sits inside the downstream sender — in a codec that streams, blocked on the body pipe): the upstream stream is still
+open and neither a reset nor the client's departure has been signalled -/
+def bodyWait (s : S) : Bool :=
+  s.running && (s.phase == .UpRecvData || s.phase == .UpRecvTrailer) && bodyOpen s && !processDone s
+
 /-- the label `work`: one iteration of `receive`'s loop -/
 def work (c : Cfg) (s : S) : S :=
   if !s.running then s else
+  if bodyWait s then s else
   match s.phase with
   | .InitPhase => { s with phase := s.phase.next }
   | .DownFilter => finishPhase c s
@@ -554,6 +586,7 @@ def upResp (c : Cfg) (s : S) (k code : Nat) (d t : Bool) : S :=
   match s.streams[k]? with
   | some st =>
     if !st.real || !st.counted || !st.live then s else
+    if s.urr then s else     -- a stream whose (streamed) response was accepted is not answered a second time
     let acc := !(processDone s || s.setupRetry) && !s.urr
     { destroyStream c s k with
         statusVar := some code,        -- the codec publishes the status before handing the frame over
@@ -561,12 +594,38 @@ def upResp (c : Cfg) (s : S) (k code : Nat) (d t : Bool) : S :=
         resp := if acc then some ⟨d, t⟩ else s.resp, notify := s.notify || acc }
   | none => s
 
+/-- the head of a streamed response for client stream k arrives: `upstreamRequest.OnReceive` with the body still in
+flight — the codec keeps the stream registered (it is NOT destroyed), so it can still end (`upEnd`) or be reset.  A
+response without body and trailers is complete with its head: `upResp`.  Accepted under the same conditions as a
+complete response. -/
+def upRespS (c : Cfg) (s : S) (k code : Nat) (d t : Bool) : S :=
+  if !d && !t then upResp c s k code d t else
+  match s.streams[k]? with
+  | some st =>
+    if !st.real || !st.counted || !st.live then s else
+    if s.urr then s else
+    let acc := !(processDone s || s.setupRetry)
+    { s with statusVar := some code, urr := s.urr || acc, respCode := if acc then code else s.respCode,
+             resp := if acc then some ⟨d, t⟩ else s.resp, notify := s.notify || acc }
+  | none => s
+
+/-- the streamed body of client stream k ended: the codec destroys the stream (the pool gives back its slot).  Only a
+stream whose response head was accepted has a body in flight. -/
+def upEndL (c : Cfg) (s : S) (k : Nat) : S :=
+  match s.streams[k]? with
+  | some st => if !st.real || !st.live || !st.counted || !s.urr then s else destroyStream c s k
+  | none => s
+
 /-- client stream k is reset by its connection / peer: listeners' OnResetStream, then destroy.  A one-way client
-stream (no receiver) is not registered with its connection (xprotocol `streamConn.NewStream`), nothing resets it. -/
+stream (no receiver) is not registered with its connection (xprotocol `streamConn.NewStream`), nothing resets it.
+The reset of a stream whose streamed response was accepted is delivered while the worker waits for the body
+(`bodyWait`); one racing with the running worker between the acceptance of the head and its forwarding is not modelled
+(the label is a no-op then). -/
 def upResetL (c : Cfg) (s : S) (k : Nat) (reason : Reason) : S :=
   match s.streams[k]? with
   | some st =>
     if !st.real || !st.live || !st.counted then s else
+    if s.urr && !bodyWait s then s else
     let s := if st.listening then upOnResetStream s reason else s
     destroyStream c s k
   | none => s
@@ -628,6 +687,8 @@ def step (c : Cfg) (s : S) : Label → S
   | .work => work c s
   | .upResp k code d t => upResp c s k code d t
   | .upReset k r => upResetL c s k r
+  | .upRespS k code d t => upRespS c s k code d t
+  | .upEnd k => upEndL c s k
   | .poolFail f => { s with failNext := s.failNext ++ [f] }
   | .hostsGone => { s with hostsGone := true }
   | .perTryFire => perTryFire c s
@@ -648,6 +709,7 @@ def settle (c : Cfg) : Nat → S → S
   | n + 1, s =>
     if !s.running then s
     else if s.phase == .WaitNotify && !s.notify then s
+    else if bodyWait s then s
     else settle c n (work c s)
 
 end MosnVerif.Model.Downstream
